@@ -14,6 +14,7 @@ rectangles of every update, plus direct oracles:
 import json, os, glob
 from .. import common
 
+GEN = ["leaf"]
 PROPS_MOD = "VncModel.Props.C02"
 EXTRA_TARGETS = ["drv_c02"]
 
